@@ -452,6 +452,42 @@ def opXmlCycle (j : Json) : R Json := do
     | none => Json.str "fail"
   pure (Json.mkObj [("elements", Json.arr outs.toArray)])
 
+def opXmlEsc (j : Json) : R Json := do
+  let vals ← fldStrs j "values"
+  let rows := vals.map fun v =>
+    let t := escapeText v.toList
+    let a := escapeAttr v.toList
+    Json.mkObj [("text", String.ofList t), ("attr", String.ofList a),
+      ("textBack", String.ofList (unescapeText t)), ("attrBack", String.ofList (unescapeAttr a))]
+  pure (Json.mkObj [("values", Json.arr rows.toArray)])
+
+def opWStream (j : Json) : R Json := do
+  let validate ← fldBool j "validate"
+  let ops ← (← fldArr j "ops").mapM fun o => do
+    match ← fldStr o "k" with
+    | "ont" => pure (WOp.addOntology (← fldStrs o "types") (← fldStrs o "sources") (← fldBool o "ok"))
+    | "event" => pure (WOp.addEvent (← fldNat o "idx") (← fldStr o "type") (← fldStr o "source") (← fldBool o "gate"))
+    | "foreign" => pure (WOp.addForeign (← fldNat o "idx"))
+    | x => throw s!"unknown writer op {x}"
+  -- per call: accepted or the error raised
+  let (w, verdicts) := ops.foldl (fun (acc : WState × List Json) op =>
+    let r := wstep validate acc.1 op
+    (r.1, acc.2 ++ [perrJson r.2])) (({} : WState), [])
+  let outJson := w.out.map fun it => match it with
+    | .ont _ ts ss => Json.arr #["ont", jStrs ts, jStrs ss]
+    | .event i _ _ _ => Json.arr #["event", (i : Json)]
+    | .foreign i => Json.arr #["foreign", (i : Json)]
+  -- the validating parser on what was written
+  let reg : Registry := { typeH := [], srcH := [], reMatch := [], overridden := true, validate := true }
+  let (p, e) := prun reg {} w.out
+  let delivered := p.log.filterMap fun c => match c with
+    | .fallback i => some (i : Json)
+    | .handler _ i => some (i : Json)
+    | _ => none
+  pure (Json.mkObj [("verdicts", Json.arr verdicts.toArray), ("out", Json.arr outJson.toArray),
+    ("parseErr", perrJson e), ("delivered", Json.arr delivered.toArray),
+    ("types", jStrs w.types), ("sources", jStrs w.sources)])
+
 def dispatch (j : Json) : R Json := do
   match ← fldStr j "op" with
   | "ping" => pure (Json.mkObj [("pong", true)])
@@ -470,6 +506,8 @@ def dispatch (j : Json) : R Json := do
   | "compat" => opCompat j
   | "evops" => opEvOps j
   | "xmlcycle" => opXmlCycle j
+  | "xmlesc" => opXmlEsc j
+  | "wstream" => opWStream j
   | x => throw s!"unknown op {x}"
 
 partial def loop (inp out : IO.FS.Stream) : IO Unit := do
